@@ -389,6 +389,7 @@ def run_case(case, tier):
     from recurrences.solver import RecurrenceSolver
     import time
     t_case = time.time()
+    run_budget = case.get("run_budget", RUN_BUDGET[tier])   # a few fixed witnesses need longer than the tier default
     timed_out_kinds = set()
     kinds_done = set()
     runs_done = 0
@@ -415,13 +416,13 @@ def run_case(case, tier):
             if opt_sig in timed_out_kinds:      # the very same solver configuration already ran out of time
                 bump(extra, "run-skipped-same-as-timed-out")
                 continue
-            if time.time() - t_case > CASE_BUDGET[tier]:
+            if time.time() - t_case > max(CASE_BUDGET[tier], run_budget):
                 bump(extra, "run-skipped-case-budget")
                 continue
             P.reset_settings()
             _timed_out[0] = False
             t_run = time.time()
-            signal.setitimer(signal.ITIMER_REAL, RUN_BUDGET[tier])
+            signal.setitimer(signal.ITIMER_REAL, run_budget)
             try:
                 solver = RecurrenceSolver(recs, **kw)
                 kind = "acyclic" if type(solver.solver).__name__ == "AcyclicSolver" else "cyclic"
@@ -453,7 +454,7 @@ def run_case(case, tier):
                 bump(extra, "runs:flagged-rounded")
 
             # ---- compare every component with the oracle
-            signal.setitimer(signal.ITIMER_REAL, RUN_BUDGET[tier])
+            signal.setitimer(signal.ITIMER_REAL, run_budget)
             try:
                 run_viol = []
                 n_checked = 0
